@@ -314,3 +314,219 @@ pub fn read(text: &str) -> Result<Emitted, String> {
 pub fn strip_hash_line(text: &str) -> String {
     text.lines().filter(|l| !l.starts_with("// @sha256 ")).collect::<Vec<_>>().join("\n")
 }
+
+// ---------------------------------------------------------------------------
+// Type region (public type definitions between the lint header and `parse`)
+
+#[derive(Clone, Debug, PartialEq, Eq)]
+pub enum EFs {
+    Unit,
+    /// (is `pub`, field name, type text)
+    Named(Vec<(bool, String, String)>),
+    Tuple(Vec<String>),
+}
+
+#[derive(Clone, Debug, PartialEq, Eq)]
+pub struct EType {
+    pub attrs: Vec<String>,
+    pub is_pub: bool,
+    pub is_enum: bool,
+    pub name: String,
+    /// struct: one entry with an empty variant name
+    pub variants: Vec<(String, EFs)>,
+    /// line index (in `text.split('\n')`) of the definition line
+    pub def_line: usize,
+}
+
+fn field_lines<'a>(lines: &[&'a str], i: &mut usize, indent: &str, closer: &str) -> Result<Vec<&'a str>, String> {
+    let mut v = vec![];
+    loop {
+        let Some(l) = lines.get(*i) else { return err("unterminated fieldset") };
+        *i += 1;
+        if *l == format!("{indent}{closer}") {
+            return Ok(v);
+        }
+        let inner = format!("{indent}    ");
+        let Some(body) = l.strip_prefix(inner.as_str()) else { return err(format!("unexpected line in fieldset: `{l}`")) };
+        let Some(body) = body.strip_suffix(',') else { return err(format!("field without trailing comma: `{l}`")) };
+        v.push(body);
+    }
+}
+
+fn named_fields(raw: Vec<&str>) -> Result<EFs, String> {
+    let mut out = vec![];
+    for f in raw {
+        let (is_pub, rest) = match f.strip_prefix("pub ") {
+            Some(r) => (true, r),
+            None => (false, f),
+        };
+        let Some(colon) = rest.find(": ") else { return err(format!("named field without `: `: `{f}`")) };
+        out.push((is_pub, rest[..colon].to_string(), rest[colon + 2..].to_string()));
+    }
+    Ok(EFs::Named(out))
+}
+
+pub fn read_types(text: &str) -> Result<Vec<EType>, String> {
+    let lines: Vec<&str> = text.split('\n').collect();
+    let Some(begin) = lines.iter().position(|l| *l == "#![allow(dead_code)]") else { return err("no `#![allow(dead_code)]` line") };
+    let Some(end) = lines.iter().position(|l| l.starts_with("/// If the parser encounters an unexpected token")) else {
+        return err("no doc comment of `parse`");
+    };
+    let mut out = vec![];
+    let mut i = begin + 1;
+    let mut attrs: Vec<String> = vec![];
+    while i < end {
+        let l = lines[i];
+        if l.is_empty() {
+            if !attrs.is_empty() {
+                return err("blank line between an attribute and its type definition");
+            }
+            i += 1;
+            continue;
+        }
+        if l.starts_with("#[") {
+            attrs.push(l.to_string());
+            i += 1;
+            continue;
+        }
+        let (is_pub, rest) = match l.strip_prefix("pub ") {
+            Some(r) => (true, r),
+            None => (false, l),
+        };
+        let def_line = i;
+        if let Some(r) = rest.strip_prefix("struct ") {
+            i += 1;
+            let (name, fs) = if let Some(n) = r.strip_suffix(';') {
+                (n.to_string(), EFs::Unit)
+            } else if let Some(n) = r.strip_suffix(" {") {
+                (n.to_string(), named_fields(field_lines(&lines, &mut i, "", "}")?)?)
+            } else if let Some(n) = r.strip_suffix('(') {
+                (n.to_string(), EFs::Tuple(field_lines(&lines, &mut i, "", ");")?.into_iter().map(|s| s.to_string()).collect()))
+            } else {
+                return err(format!("unrecognised struct definition line `{l}`"));
+            };
+            out.push(EType { attrs: std::mem::take(&mut attrs), is_pub, is_enum: false, name, variants: vec![(String::new(), fs)], def_line });
+        } else if let Some(r) = rest.strip_prefix("enum ") {
+            let Some(name) = r.strip_suffix(" {") else { return err(format!("unrecognised enum definition line `{l}`")) };
+            i += 1;
+            let mut variants = vec![];
+            loop {
+                let Some(vl) = lines.get(i) else { return err("unterminated enum") };
+                i += 1;
+                if *vl == "}" {
+                    break;
+                }
+                if vl.is_empty() {
+                    continue;
+                }
+                let Some(body) = vl.strip_prefix("    ") else { return err(format!("unexpected line in enum: `{vl}`")) };
+                if let Some(n) = body.strip_suffix(" {") {
+                    variants.push((n.to_string(), named_fields(field_lines(&lines, &mut i, "    ", "},")?)?));
+                } else if let Some(n) = body.strip_suffix('(') {
+                    variants.push((n.to_string(), EFs::Tuple(field_lines(&lines, &mut i, "    ", "),")?.into_iter().map(|s| s.to_string()).collect())));
+                } else if let Some(n) = body.strip_suffix(',') {
+                    // `Name,` (unit) or the terminal enum's `Name(TYPE),`
+                    if let Some(p) = n.find('(') {
+                        let Some(inner) = n[p + 1..].strip_suffix(')') else { return err(format!("bad variant line `{vl}`")) };
+                        variants.push((n[..p].to_string(), EFs::Tuple(vec![inner.to_string()])));
+                    } else {
+                        variants.push((n.to_string(), EFs::Unit));
+                    }
+                } else {
+                    return err(format!("unrecognised variant line `{vl}`"));
+                }
+            }
+            out.push(EType { attrs: std::mem::take(&mut attrs), is_pub, is_enum: true, name: name.to_string(), variants, def_line });
+        } else {
+            return err(format!("unexpected line in the type region: `{l}`"));
+        }
+    }
+    if !attrs.is_empty() {
+        return err("dangling attributes at the end of the type region");
+    }
+    Ok(out)
+}
+
+/// Tokens of a Rust type expression as written by Kiki's type syntax: identifiers, `::`, `<`, `>`, `,`, `(`, `)`.
+pub fn type_tokens(s: &str) -> Result<Vec<String>, String> {
+    let mut out = vec![];
+    let cs: Vec<char> = s.chars().collect();
+    let mut i = 0;
+    while i < cs.len() {
+        let c = cs[i];
+        if c == ' ' {
+            i += 1;
+        } else if c.is_ascii_alphabetic() || c == '_' {
+            let st = i;
+            while i < cs.len() && (cs[i].is_ascii_alphanumeric() || cs[i] == '_') {
+                i += 1;
+            }
+            out.push(cs[st..i].iter().collect());
+        } else if c == ':' && cs.get(i + 1) == Some(&':') {
+            out.push("::".into());
+            i += 2;
+        } else if "<>,()".contains(c) {
+            out.push(c.to_string());
+            i += 1;
+        } else {
+            return err(format!("unexpected character `{c}` in type `{s}`"));
+        }
+    }
+    Ok(out)
+}
+
+/// (terminal name, type text) pairs of the Node helper enum and of the `try_into_*` helper functions.
+pub struct HelperTypes {
+    pub node_variants: Vec<(String, String)>,
+    pub try_into: Vec<(String, String)>,
+}
+
+pub fn read_helper_types(text: &str) -> Result<HelperTypes, String> {
+    let lines: Vec<&str> = text.split('\n').collect();
+    let Some(parse_at) = lines.iter().position(|l| l.starts_with("pub fn parse<")) else { return err("no parse fn") };
+    // non-derived helper enums after parse, in template order: quasi-terminal, node
+    let mut plain = vec![];
+    let mut i = parse_at;
+    while i < lines.len() {
+        if lines[i].starts_with("enum ") && lines[i].ends_with(" {") && lines[i - 1] != "#[derive(Clone, Copy, Debug)]" {
+            let mut body = vec![];
+            let mut j = i + 1;
+            while j < lines.len() && lines[j] != "}" {
+                body.push(lines[j]);
+                j += 1;
+            }
+            plain.push(body);
+            i = j;
+        }
+        i += 1;
+    }
+    if plain.len() != 2 {
+        return err(format!("expected 2 non-derived helper enums, found {}", plain.len()));
+    }
+    let mut node_variants = vec![];
+    for l in &plain[1] {
+        let t = l.trim();
+        if t.is_empty() {
+            continue;
+        }
+        let Some(t) = t.strip_suffix(',') else { return err("node variant without comma") };
+        let Some(p) = t.find('(') else { return err("node variant without payload") };
+        let Some(inner) = t[p + 1..].strip_suffix(')') else { return err("node variant payload not closed") };
+        node_variants.push((t[..p].to_string(), inner.to_string()));
+    }
+    let mut try_into = vec![];
+    for l in &lines[parse_at..] {
+        if let Some(r) = l.strip_prefix("    fn try_into_") {
+            if let Some(p) = r.find("(self) -> Result<") {
+                let name = format!("try_into_{}", &r[..p]);
+                let rest = &r[p + "(self) -> Result<".len()..];
+                if let Some(ty) = rest.strip_suffix(", Self> {") {
+                    try_into.push((name, ty.to_string()));
+                } else if name != "try_into_terminal" {
+                    return err(format!("bad try_into signature `{l}`"));
+                }
+            }
+        }
+    }
+    Ok(HelperTypes { node_variants, try_into })
+}
